@@ -29,9 +29,11 @@ META = dict(
 
 META['level_text'] = (
     'Theorems (every template nesting oneof / manyof in all four distinct x sorted modes / floatv / custom placeholders in dicts, lists, objects and in the candidates of '
-    'other placeholders, every `where` filter, every DNA valid for the template\'s specification): see coq/Properties/C13.v — decoding a valid DNA succeeds, leaves no accepted '
-    'placeholder, gives a value of the template\'s shape, and encoding it returns the same DNA when the candidates of every choice are distinguishable; the decoded values of all '
-    'valid DNAs are pairwise different and as many as space_size (with C11). Tie: the model is run against the library on a systematic placeholder x context x filter sweep, on '
+    'other placeholders, every `where` filter, every DNA valid for the template\'s specification): see coq/Properties/C13.v — what the code computes on the concrete DNA of a valid '
+    'decision is the structured decoder (slot assignment, re-rooting of conditional child DNA, distinct/sorted checks); decoding a valid DNA succeeds (only user code of a custom hyper can fail), leaves no accepted '
+    'placeholder, gives a value of the template\'s shape, and encoding it returns the same DNA when the candidates of every choice are distinguishable (with a _partial / _refuted pair for the one open finding); '
+    'what encode accepts is decodable; two valid DNAs never decode to equal values and iterating a finite template yields exactly the valid DNAs, as many as space_size (with C11); '
+    'a value decoded from a placeholder tree bound to a value spec is accepted by that spec (fragment, on C04\'s Typing model). Tie: the model is run against the library on a systematic placeholder x context x filter sweep, on '
     'random nested templates (every DNA of spaces up to 200, 50 random beyond), on corrupted DNA trees and perturbed values; the direct oracle evaluates the property text on the real objects.')
 META['level_note'] = (
     'Partial: "never modify the template" and "decoding twice gives equal values" are definitionally true of a pure Gallina function and are NOT claimed as theorems; they are decided by the '
@@ -344,7 +346,7 @@ def describe_w(w):
 # ------------------------------------------------------------------------------------------------
 # generators
 LEAVES = [None, True, False, 0, 1, 2, 3, -1, 7, 0.5, 1.0, 2.5, -0.25, 'a', 'b', 'xy', '']
-KEYS = ['a', 'b', 'c', 'x', 'y']
+KEYS = ['a', 'b', 'c', 'x', 'y', 'k.d', 'e[0]']     # the last two need escaping in a path string: rebind of the decoded parts goes through path strings
 
 def strip_names(t):
   if t[0] == '1': return ['1', [strip_names(c) for c in t[1]], None, t[3]]
@@ -905,6 +907,51 @@ def detect_quirks():
   ok, r = attempt(lambda: t.encode(t.decode(pg.DNA(1))))
   return dict(list_dict=(not ok and type(r).__name__ == 'TypeError'))
 
+def evolvable_oracle(ctx):
+  """pg.evolve placeholders (a CustomHyper whose DNA is the JSON text of the value): oracle only, no model run."""
+  pg = py()['pg']
+  def mk(kind):
+    e = lambda: pg.evolve(pg.List([1, 2]), lambda k, v, p: 0)
+    if kind == 'dict': return pg.Dict(a=e(), b=pg.oneof([1, 2]))
+    if kind == 'list': return pg.List([pg.oneof(['u', 'v']), e()])
+    if kind == 'candidate': return pg.oneof(['x', pg.Dict(k=e()), 7])
+    if kind == 'manyof': return pg.manyof(2, ['y', pg.oneof([1, 2]), e()], distinct=False)   # the evolvable last: it encodes any value
+    return e()
+  texts = [pg.to_json_str(pg.List(l)) for l in ([], [1], [3, 4, 5])]
+  def dnas(kind):
+    D = pg.DNA
+    if kind == 'dict': return [(D([t, i]), lambda t=t, i=i: {'a': json.loads(t), 'b': [1, 2][i]}) for t in texts for i in (0, 1)]
+    if kind == 'list': return [(D([i, t]), lambda t=t, i=i: ['uv'[i], json.loads(t)]) for t in texts for i in (0, 1)]
+    if kind == 'candidate': return [(D(0), lambda: 'x'), (D(2), lambda: 7)] + [(D(1, [D(t)]), lambda t=t: {'k': json.loads(t)}) for t in texts]
+    if kind == 'manyof': return [(D(None, [D(2, [D(t)]), D(0)]), lambda t=t: [json.loads(t), 'y']) for t in texts] + [(D(None, [D(1, [D(1)]), D(2, [D(texts[1])])]), lambda: [2, [1]])]
+    return [(D(t), lambda t=t: json.loads(t)) for t in texts]
+  n = 0
+  for kind in ('root', 'dict', 'list', 'candidate', 'manyof'):
+    hv = mk(kind)
+    before = pg.format(hv, compact=True)
+    ok, tm = attempt(lambda: pg.template(hv))
+    if not ok:
+      ctx.hit('C13/template-raises/%s/evolvable' % type(tm).__name__, 'pg.template raises on a template with pg.evolve (%s)' % kind, dict(op='evolvable', kind=kind)); continue
+    for dna, expect in dnas(kind):
+      n += 1
+      case = dict(op='evolvable', kind=kind, dna=str(dna))
+      ok1, v = attempt(lambda: tm.decode(dna))
+      if not ok1:
+        ctx.hit('C13/decode-raises/%s/evolvable' % type(v).__name__, 'decode of %s raises %s: %s (pg.evolve in %s)' % (dna, type(v).__name__, str(v)[:150], kind), case); continue
+      plain = pg.to_json(v) if isinstance(v, pg.Symbolic) else v
+      if not pg.is_deterministic(v) or plain != expect():
+        ctx.hit('C13/decode-shape/evolvable', 'decode of %s gives %r, expected %r (pg.evolve in %s)' % (dna, v, expect(), kind), case)
+      ok2, v2 = attempt(lambda: tm.decode(dna))
+      if not ok2 or not pg.eq(v, v2):
+        ctx.hit('C13/decode-twice/evolvable', 'decoding %s twice gives different values (pg.evolve in %s)' % (dna, kind), case)
+      ok3, d3 = attempt(lambda: tm.encode(v))
+      if not ok3 or G.freeze(G.dna_to_tree(d3)) != G.freeze(G.dna_to_tree(dna)):
+        ctx.hit('C13/encode-decode/evolvable', 'encode(decode(%s)) = %s (pg.evolve in %s)' % (dna, d3 if ok3 else type(d3).__name__, kind), case)
+      if pg.format(hv, compact=True) != before:
+        ctx.hit('C13/template-modified/evolvable', 'decode / encode modified a template with pg.evolve (%s)' % kind, case)
+      ctx.count(('evolvable', kind, str(dna)), nontrivial=True, kind='evolvable(oracle only)')
+  ctx.extra['evolvable_oracle_cases'] = n
+
 def run_jobs(jobs, nproc):
   import multiprocessing as mp
   if nproc <= 1 or len(jobs) < 8:
@@ -961,7 +1008,8 @@ def run(ctx):
       else: ctx.hit(ev[1], ev[2], ev[3])
     cases += rec.cases; impl += rec.impl; descr += rec.descr
     noracle += rec.oracle
-  ctx.extra['oracle_evaluations'] = noracle
+  evolvable_oracle(ctx)
+  ctx.extra['oracle_evaluations'] = noracle + ctx.extra.get('evolvable_oracle_cases', 0)
   model = ctx.model_run(cases)
   lookup = {id(c): d for c, d in zip(cases, descr)}
   ctx.compare('HyperRun.run vs pg.template(...).dna_spec / decode / encode / pg.iter', cases, impl, model, describe=lambda c: lookup.get(id(c)))
